@@ -173,10 +173,27 @@ fn check_zone(ctx: &Ctx, stats: &Stats, zone: &Zone, c: &Content, hist: &str, pr
 }
 
 fn check_zone_q(ctx: &Ctx, stats: &Stats, zone: &Zone, c: &Content, hist: &str, prev: Option<&[&Content]>, case: &dyn Fn() -> Value, qnames: &[&str]) {
+    let qnames: Vec<RelName> = qnames.iter().map(|qn| rel(qn)).collect();
+    check_zone_rel(ctx, stats, zone, c, hist, prev, case, &qnames, &QTYPES)
+}
+
+/// A query name as text: labels left to right, octets that are not letters, digits, '*', '-' or '_' as \DDD
+/// (for the plain names of the main universe this is the name as the QNAMES table spells it).
+fn qshow(q: &RelName) -> String {
+    q.iter()
+        .rev()
+        .map(|l| label_octets(l).iter().map(|b| if b.is_ascii_alphanumeric() || matches!(b, b'*' | b'-' | b'_') { (*b as char).to_string() } else { format!("\\{b:03}") }).collect::<String>())
+        .collect::<Vec<_>>()
+        .join(".")
+}
+
+fn check_zone_rel(ctx: &Ctx, stats: &Stats, zone: &Zone, c: &Content, hist: &str, prev: Option<&[&Content]>, case: &dyn Fn() -> Value, qnames: &[RelName], qtypes: &[Rtype]) {
     let read = zone.read();
-    for qn in qnames.iter().copied() {
-        let q = rel(qn);
-        for qt in QTYPES {
+    for q in qnames.iter() {
+        let q = q.clone();
+        let qn = qshow(&q);
+        let qn = qn.as_str();
+        for qt in qtypes.iter().copied() {
             stats.eval();
             let e = resolve(c, &q, qt);
             let o = match guard(|| query(read.as_ref(), &q, qt)) {
@@ -1121,6 +1138,282 @@ fn owner_case_part(ctx: &Ctx, stats: &Stats, quick: bool, all: &[Vec<K>]) -> u64
     zones.load(std::sync::atomic::Ordering::Relaxed)
 }
 
+// ---------------------------------------------------------------------------
+// Part L: the label-octet axis. A label is an arbitrary string of 1..63
+// octets (RFC 1035 3.1, RFC 2181 11): 0x00, '.', octets that look like a
+// length octet, '*' inside a longer label and octets above 0x7F are ordinary
+// content; two labels are the same iff they have the same length and the same
+// octets up to ASCII case (RFC 4343) - and only A-Z/a-z fold. The tree descent
+// must therefore tell any two different labels of the menu apart and find
+// every one of them again, at the first level below the apex and one level
+// deeper, whichever interface stored the name.
+//
+// Universe: for every ordered pair (p, q) of different menu labels the
+// records P: p A, Q: q A+TXT, QP: q.p A, PQ: p.q A (q an empty non-terminal
+// unless Q), W: * A+TXT, WP: *.p TXT; contents = a menu of subsets (4, thorough
+// 8). Queries: the apex, m, m.p and m.q for EVERY menu label m (present
+// and absent ones) x {A, TXT}, lower-case and with the labels upper-cased.
+// Oracle: the reference resolver (labels compared as octet strings), walk().
+// ---------------------------------------------------------------------------
+fn l_menu(quick: bool) -> Vec<Vec<u8>> {
+    let mut v: Vec<Vec<u8>> = vec![
+        b"a".to_vec(),
+        b"ab".to_vec(),    // a sibling that is a proper extension of "a"
+        b"a\0".to_vec(),   // ends in NUL
+        b"b\0".to_vec(),   // another one that ends in NUL
+        b"\0".to_vec(),    // NUL only
+        b"a\0b".to_vec(),  // NUL inside
+        b"\0a".to_vec(),   // NUL first
+        b"a.b".to_vec(),   // '.' as an octet
+        b"\x01a".to_vec(), // content that reads like the wire form of the label "a"
+        b"\x01z".to_vec(), // content that reads like the wire form of the apex label
+        b"*".to_vec(),     // the wildcard label
+        b"*a".to_vec(),    // '*' inside a longer label: not a wildcard
+        b"a*".to_vec(),
+        b"@".to_vec(),     // 0x40 / 0x60 and 0x5B / 0x7B differ by the case bit but are not letters
+        b"`".to_vec(),
+        b"[".to_vec(),
+        b"{".to_vec(),
+        vec![b'a'; 63],    // the longest label (and "a", "ab" are its prefixes)
+        vec![0xFF],
+        vec![0xC1],        // 0xC1 / 0xE1 differ by the case bit, too
+        vec![0xE1],
+    ];
+    if !quick {
+        let mut l62b = vec![b'a'; 62];
+        l62b.push(b'b');
+        v.extend([b"\0\0".to_vec(), b".".to_vec(), b"**".to_vec(), b" ".to_vec(), b";".to_vec(), b"\"".to_vec(), b"\\".to_vec(), b"(".to_vec(), b"$".to_vec(), b"\x7f".to_vec(), vec![0x80], b"0".to_vec(), b"\x02ab".to_vec(), b"a\0\0".to_vec(), l62b]);
+    }
+    v
+}
+
+const L_P: u8 = 1;
+const L_Q: u8 = 2;
+const L_QP: u8 = 4;
+const L_PQ: u8 = 8;
+const L_W: u8 = 16;
+const L_WP: u8 = 32;
+const L_BITS: [(u8, &str); 6] = [(L_P, "P"), (L_Q, "Q"), (L_QP, "QP"), (L_PQ, "PQ"), (L_W, "W"), (L_WP, "WP")];
+
+fn l_masks(quick: bool) -> Vec<u8> {
+    let mut v = vec![L_P | L_QP, L_P | L_QP | L_W | L_WP, L_P | L_PQ, L_P | L_Q | L_QP | L_PQ | L_W];
+    if !quick {
+        // siblings only; p an empty non-terminal above q.p / above *.p; everything
+        v.extend([L_P | L_Q, L_Q | L_QP, L_Q | L_WP, L_P | L_Q | L_QP | L_PQ | L_W | L_WP]);
+    }
+    v
+}
+
+fn l_content(p: &str, q: &str, mask: u8, serial: u32) -> Content {
+    let mut c = Content::base(serial);
+    let star = "*".to_string();
+    let mut add = |n: Vec<String>, rd: Rd| {
+        c.names.entry(n).or_default().insert(rd);
+    };
+    if mask & L_P != 0 {
+        add(vec![p.into()], Rd::A(1));
+    }
+    if mask & L_Q != 0 {
+        add(vec![q.into()], Rd::A(4));
+        add(vec![q.into()], Rd::Txt("q".into()));
+    }
+    if mask & L_QP != 0 {
+        add(vec![p.into(), q.into()], Rd::A(2));
+    }
+    if mask & L_PQ != 0 {
+        add(vec![q.into(), p.into()], Rd::A(3));
+    }
+    if mask & L_W != 0 {
+        add(vec![star.clone()], Rd::A(9));
+        add(vec![star.clone()], Rd::Txt("w".into()));
+    }
+    if mask & L_WP != 0 {
+        add(vec![p.into(), star.clone()], Rd::Txt("wp".into()));
+    }
+    c
+}
+
+/// Names that exist without data of their own.
+fn l_ents(c: &Content) -> Vec<RelName> {
+    nodes_of(c).into_iter().filter(|n| !c.has_data(n)).collect()
+}
+
+/// A wildcard name that exists only as an empty non-terminal is a question of tree shape, not of
+/// label octets (and the fixture's resolver does not model it): such contents are left out.
+fn l_valid(c: &Content) -> bool {
+    !l_ents(c).iter().any(|n| n.last().map(|l| l == "*").unwrap_or(false))
+}
+
+/// The content as zone-file text: every owner absolute, octets outside [A-Za-z0-9*_-] as \DDD.
+fn l_zone_text(c: &Content, upper: bool) -> String {
+    let mut recs: Vec<(RelName, Rd)> = c.records().into_iter().collect();
+    recs.sort_by_key(|(n, r)| (!matches!(r, Rd::Soa(_)), n.clone(), r.clone()));
+    let mut t = String::new();
+    for (n, r) in recs {
+        let mut owner = qshow(&n);
+        if upper {
+            owner = owner.to_ascii_uppercase();
+        }
+        if !owner.is_empty() {
+            owner.push('.');
+        }
+        owner.push_str("z.");
+        let data = match &r {
+            Rd::A(k) => format!("A 192.0.2.{k}"),
+            Rd::Txt(s) => format!("TXT \"{s}\""),
+            Rd::Soa(serial) => format!("SOA ns.other. hm.other. {serial} 10 11 12 13"),
+            Rd::NsOut => "NS ns.other.".to_string(),
+            other => unreachable!("part L has no {other:?}"),
+        };
+        t.push_str(&format!("{owner} {TTL} IN {data}\n"));
+    }
+    t
+}
+
+fn l_build_text(c: &Content, upper: bool) -> Result<Zone, String> {
+    let text = l_zone_text(c, upper);
+    let zf = domain::zonefile::inplace::Zonefile::from(text.as_bytes());
+    Zone::try_from(zf).map_err(|e| format!("{e}"))
+}
+
+fn label_octet_part(ctx: &Ctx, stats: &Stats, quick: bool) -> (u64, u64, usize) {
+    use std::sync::atomic::{AtomicU64, Ordering};
+    let menu: Vec<String> = l_menu(quick).iter().map(|o| octets_label(o)).collect();
+    let masks = l_masks(quick);
+    let (zones, contents) = (AtomicU64::new(0), AtomicU64::new(0));
+    let mut pairs: Vec<(usize, usize)> = Vec::new();
+    for i in 0..menu.len() {
+        for j in 0..menu.len() {
+            if i != j {
+                pairs.push((i, j));
+            }
+        }
+    }
+    let bare = Content::base(0);
+    let upper_owners = FixOpts { owners: Spelling::RelUpper, ..Default::default() };
+    pairs.par_iter().for_each(|(i, j)| {
+        let (p, q) = (&menu[*i], &menu[*j]);
+        // every menu label at the first level and below both names of the pair
+        let mut qnames: Vec<RelName> = vec![vec![]];
+        for m in &menu {
+            qnames.push(vec![m.clone()]);
+            qnames.push(vec![p.clone(), m.clone()]);
+            qnames.push(vec![q.clone(), m.clone()]);
+        }
+        for mask in &masks {
+            let c = l_content(p, q, *mask, 1);
+            if !l_valid(&c) {
+                continue;
+            }
+            contents.fetch_add(1, Ordering::Relaxed);
+            stats.distinct(fnv(format!("L{:?}", c).as_bytes()));
+            let present: Vec<&str> = L_BITS.iter().filter(|(b, _)| mask & b != 0).map(|(_, n)| *n).collect();
+            let case_of = |extra: Value| json!({"part": "L", "p": qshow(&vec![p.clone()]), "q": qshow(&vec![q.clone()]), "records": present, "edit": extra});
+            let case = || case_of(Value::Null);
+            // the oracle for one zone
+            let check = |zone: &Zone, c: &Content, hist: &str, prev: Option<&[&Content]>, case: &dyn Fn() -> Value| {
+                zones.fetch_add(1, Ordering::Relaxed);
+                stats.count(&format!("label-octets.{hist}"));
+                check_zone_rel(ctx, stats, zone, c, hist, prev, case, &qnames, &[Rtype::A, Rtype::TXT]);
+                // the labels upper-cased: the answer of the lower-case spelling (owners compared case-insensitively)
+                // (quick: on the zones built in one go; the read path is the same for all)
+                if quick && prev.is_some() {
+                    return;
+                }
+                let read = zone.read();
+                for qn in &qnames {
+                    let (low, up) = (spelled_name(qn, Spelling::Lower), spelled_name(qn, Spelling::RelUpper));
+                    if low.as_slice() == up.as_slice() {
+                        continue;
+                    }
+                    for qt in [Rtype::A, Rtype::TXT] {
+                        stats.eval();
+                        let replay = || json!({"zone": case(), "history": hist, "qname": qshow(qn), "spelling": "RelUpper", "qtype": qt.to_string()});
+                        match (guard(|| query_name(read.as_ref(), &low, qt)), guard(|| query_name(read.as_ref(), &up, qt))) {
+                            (_, Err(pn)) => {
+                                ctx.violation(&format!("C08|label-octets|query-case|panic|{}", panic_class(&pn)), &pn, replay());
+                            }
+                            (_, Ok(Err(()))) => {
+                                ctx.violation("C08|label-octets|query-case|name-inside-the-zone-refused-as-out-of-zone", &format!("{}/{qt}", qshow(qn)), replay());
+                            }
+                            (Ok(Ok(l)), Ok(Ok(u))) => {
+                                if l.o != u.o || l.t != u.t {
+                                    ctx.violation(&format!("C08|label-octets|query-case|answer-differs-from-the-lower-case-query|lower={:?}|upper={:?}", l.o.kind(), u.o.kind()), &format!("{}/{qt} upper-cased: {:?}, lower-case: {:?}", qshow(qn), u.t, l.t), replay());
+                                }
+                            }
+                            _ => {} // the lower-case query failing is reported by check_zone_rel
+                        }
+                    }
+                }
+            };
+            // a route that hands back a zone or refuses the content
+            let run = |hist: &str, c: &Content, prev: Option<&[&Content]>, case: &dyn Fn() -> Value, z: Result<Result<Zone, String>, String>| match z {
+                Ok(Ok(z)) => check(&z, c, hist, prev, case),
+                Ok(Err(e)) => {
+                    ctx.violation(&format!("C08|{hist}|content-refused"), &e, json!({"zone": case(), "history": hist}));
+                }
+                Err(pn) => {
+                    ctx.violation(&format!("C08|{hist}|panic|{}", panic_class(&pn)), &pn, json!({"zone": case(), "history": hist}));
+                }
+            };
+            run("label-octets-builder-fwd", &c, None, &case, guard(|| Ok(build_direct(&c, false))));
+            run("label-octets-builder-rev-upper-owners", &c, None, &case, guard(|| Ok(with_fix_opts(upper_owners, || build_direct(&c, true)))));
+            run("label-octets-parsed", &c, None, &case, guard(|| build_parsed(&c)));
+            run("label-octets-zonefile-text", &c, None, &case, guard(|| l_build_text(&c, false)));
+            if !quick {
+                run("label-octets-builder-rev", &c, None, &case, guard(|| Ok(build_direct(&c, true))));
+                run("label-octets-parsed-upper-owners", &c, None, &case, guard(|| with_fix_opts(upper_owners, || build_parsed(&c))));
+                run("label-octets-zonefile-text-upper-owners", &c, None, &case, guard(|| l_build_text(&c, true)));
+            }
+            // Histories through the write interface and the ZoneUpdater. Their known defects (an empty
+            // non-terminal created by update_child, the node a removed name leaves behind) are findings of
+            // the main part; here only histories that create neither are run, so that every mismatch counts.
+            if l_ents(&c).is_empty() {
+                run("write-label-octets-from-bare", &c, Some(&[&bare]), &case, guard(|| Ok(write_edit(&bare, &c, None, false))));
+                run("updater-label-octets-replace-from-bare", &c, Some(&[&bare]), &case, guard(|| updater_replace(&bare, &c)));
+                if !quick {
+                    run("updater-label-octets-replace-from-bare-upper-owners", &c, Some(&[&bare]), &case, guard(|| {
+                        let z = build_direct(&bare, false);
+                        with_fix_opts(upper_owners, || updater_replace_on(&z, &c))?;
+                        Ok(z)
+                    }));
+                }
+                // one record set added to / removed from a builder-built zone: the edit must reach the node of exactly that name
+                for (bit, bname) in L_BITS {
+                    if mask & bit == 0 || mask == &bit {
+                        continue;
+                    }
+                    // quick: the two names whose labels both come from the menu (q beside p, q below p)
+                    if quick && bit != L_Q && bit != L_QP {
+                        continue;
+                    }
+                    let less = l_content(p, q, mask & !bit, 0);
+                    if !l_valid(&less) {
+                        continue;
+                    }
+                    let case_add = || case_of(json!({"added": bname}));
+                    run("updater-label-octets-edit-add", &c, Some(&[&less]), &case_add, guard(|| updater_edit(&less, &c)));
+                    run("write-label-octets-edit-add", &c, Some(&[&less]), &case_add, guard(|| Ok(write_edit(&less, &c, None, false))));
+                    // removal: every name of the smaller content keeps data or a descendant with data, the removed
+                    // name (if it was a leaf) leaves its node behind - the known stale-node answers are classified
+                    // by check_zone_rel; a record removed from the WRONG node shows in walk() and in the answers elsewhere
+                    if l_ents(&less).is_empty() {
+                        let (mut from, mut to) = (c.clone(), less.clone());
+                        from.set_serial(0);
+                        to.set_serial(1);
+                        let case_del = || case_of(json!({"removed": bname}));
+                        run("updater-label-octets-edit-delete", &to, Some(&[&from]), &case_del, guard(|| updater_edit(&from, &to)));
+                        if !quick {
+                            run("write-label-octets-edit-delete", &to, Some(&[&from]), &case_del, guard(|| Ok(write_edit(&from, &to, None, false))));
+                        }
+                    }
+                }
+            }
+        }
+    });
+    (zones.load(Ordering::Relaxed), contents.load(Ordering::Relaxed), menu.len())
+}
+
 fn main() {
     let ctx = Ctx::new("C08", "model_checking");
     let stats = Stats::new();
@@ -1328,7 +1621,9 @@ fn main() {
     // parts S and N2/N3 (their replays carry no "zone": the main loop then runs nothing)
     let own_parts = replay_zone.as_ref().map(|z| z.is_empty()).unwrap_or(true);
     let (commit_chains, owner_case_zones) = if own_parts { (commit_flavour_part(&ctx, &stats, quick), owner_case_part(&ctx, &stats, quick, &contents)) } else { (0, 0) };
-    tr(commit_chains + owner_case_zones);
+    let l_start = std::time::Instant::now();
+    let (label_zones, label_contents, label_menu) = if own_parts { label_octet_part(&ctx, &stats, quick) } else { (0, 0, 0) };
+    tr(commit_chains + owner_case_zones + label_zones);
     let t = transitions.load(std::sync::atomic::Ordering::Relaxed);
     ctx.finish(
         json!({
@@ -1337,11 +1632,12 @@ fn main() {
             "traces_validated_against_impl": t,
             "evaluations": stats.evals(),
             "distinct_nontrivial": stats.distinct_count(),
-            "rule": "states = all zone contents (kind per slot name, consistent with zone rules); transitions = histories executed on the real zone (builder fwd/rev, parsed zonefile, updater full replacement from bare and busy zones, write interface from bare / via remove_all, and for every single-slot neighbour content an updater edit, a write-interface edit, a write-interface edit after an abandoned attempt and after an abandoned full replacement (remove_all, with and without rewriting); thorough: also two committed write batches through every pair of successive single-slot edits); plus the chains of part S (commit_flavours) and the zones of parts N2/N3 (case_axis); evaluations = (qname,qtype) queries + walks compared with the reference resolver",
+            "rule": "states = all zone contents (kind per slot name, consistent with zone rules); transitions = histories executed on the real zone (builder fwd/rev, parsed zonefile, updater full replacement from bare and busy zones, write interface from bare / via remove_all, and for every single-slot neighbour content an updater edit, a write-interface edit, a write-interface edit after an abandoned attempt and after an abandoned full replacement (remove_all, with and without rewriting); thorough: also two committed write batches through every pair of successive single-slot edits); plus the chains of part S (commit_flavours), the zones of parts N2/N3 (case_axis) and the zones of part L (label_octets); evaluations = (qname,qtype) queries + walks compared with the reference resolver",
             "exhaustive": true,
             "zone_tree": {"zones": T_ZONES.iter().map(|(n, c)| format!("{n}/{c}")).collect::<Vec<_>>(), "qnames": T_QNAMES, "operation_sequences": tree_seqs, "final_zone_sets_reached": tree_sets, "rule": "every sequence of insert/remove over the 7 zones (two classes, nested apexes, root) to the depth bound on a real ZoneTree; after every step find_zone for every qname x class == nearest present ancestor (RFC 1034 4.3.2 step 2), get_zone and iter_zones == present set"},
             "commit_flavours": {"flavours": FLAVS.iter().map(|f| format!("{f:?}")).collect::<Vec<_>>(), "chains": commit_chains, "qnames": S_QNAMES, "rule": "part S: for each base content x each single-slot edit (small menus), apex TXT toggle or no RRset edit x chain shape (edit,revert / nothing,edit; thorough also edit,nothing and the 3-commit edit,nothing,revert, with and without a requested diff) x a flavour per commit {new SOA stored + commit(false), SOA untouched + commit(false), SOA untouched + commit(true), new SOA stored + commit(true)} x start serial menu (incl. 2^32-1; thorough 2^32-2, 2^31-1, 0): after EVERY commit the model SOA (explicit: as stored incl. its TTL; commit(true): RFC 1982 serial+1, rest unchanged) must be the one and only authority record of every negative answer (owner, serial, all fields; TTL the SOA's or capped by MINIMUM), the answer of a direct apex SOA query (exact TTL), all answers == reference, positive TTLs == the RRsets', and every right answer == the answer of a fresh ZoneBuilder zone with the same records, TTLs included"},
             "case_axis": {"spellings": SPELLINGS.iter().map(|s| format!("{s:?}")).collect::<Vec<_>>(), "owner_case_zones": owner_case_zones, "rule": "N1: every content (builder zone; thorough also reverse order and parsed zonefile) x every qname x {apex upper, rest upper, all upper, labels alternating even/odd} x qtype (quick: A, DS): never out-of-zone, == reference, == the lower-case query's records incl. TTL (owners compared case-insensitively). N2: every content of the small universe (thorough: all) x the 5 spellings of OWNER names fed to ZoneBuilder::insert_*, parsed::Zonefile, update_child/make_zone_cut (from the bare zone) and ZoneUpdater full replacement; every base-content edit (both directions) through the write interface and ZoneUpdater add/delete with spelled owners against a lower-case built zone: accepted, and all lower-case queries + walk == reference. N3: the same with the zone's apex stored as 'Z.' (owners lower-case and alternating), builder/parsed zones also queried in every spelling"},
+            "label_octets": {"labels": l_menu(quick).iter().map(|o| qshow(&vec![octets_label(o)])).collect::<Vec<_>>(), "menu_size": label_menu, "contents": label_contents, "zones": label_zones, "subsets": l_masks(quick).len(), "part_wall_s": (l_start.elapsed().as_secs_f64() * 10.0).round() / 10.0, "rule": "part L: every ordered pair (p,q) of different labels of the hostile menu (NUL at the end / alone / inside / first, '.' as an octet, content that reads like a length octet + label, '*' alone and inside a longer label, non-letters that differ by the case bit 0x20, 63 octets and its prefixes, octets above 0x7F; thorough: more, incl. zone-file specials) x a subset of the records {p A; q A+TXT; q.p A; p.q A (q empty non-terminal); * A+TXT; *.p TXT} (quick: 4 subsets, thorough: 8; a wildcard as empty non-terminal excluded) x route {ZoneBuilder forward; ZoneBuilder reverse with upper-cased owner labels; parsed::Zonefile from records; zone-file TEXT with \\DDD escapes through inplace::Zonefile -> Zone; for contents without empty non-terminal: write interface from the bare zone, ZoneUpdater full replacement from the bare zone, and for every record set of the subset (quick: q and q.p) a ZoneUpdater edit and a write-interface edit that adds it to, and a ZoneUpdater edit that deletes it from, a builder-built zone (thorough: more spellings, write-interface delete)}: queries for the apex and for m, m.p, m.q for EVERY menu label m x {A, TXT} == reference resolver over label lists (octet strings, ASCII-case-insensitive), the same names with upper-cased labels == the lower-case answer incl. TTLs (quick: on the zones built in one go), walk() == the records"},
             "slots": SLOTS,
             "qnames": QNAMES,
             "qtypes": QTYPES.iter().map(|t| t.to_string()).collect::<Vec<_>>(),
